@@ -786,9 +786,31 @@ func c05Crafted(r *kit.Rand) ([]byte, string) {
 		var b bytes.Buffer
 		b.WriteString("%PDF-1.7\n1 0 obj\n<</Type/Catalog/Pages 2 0 R>>\nendobj\n2 0 obj\n<</Type/Pages/Kids[]/Count 0>>\nendobj\n")
 		pos := b.Len()
+		// the subsections in ascending, descending or shuffled order, or overlapping
+		order := kit.Pick(r, []string{"ascending", "descending", "shuffled", "overlapping", "identical"})
+		what += "/" + order
+		starts := make([]int, sub)
+		for i := range starts {
+			switch order {
+			case "overlapping":
+				starts[i] = 10 + i*per/2
+			case "identical":
+				starts[i] = 10
+			default:
+				starts[i] = 10 + i*per*2
+			}
+		}
+		switch order {
+		case "descending":
+			for i, j := 0, sub-1; i < j; i, j = i+1, j-1 {
+				starts[i], starts[j] = starts[j], starts[i]
+			}
+		case "shuffled":
+			kit.Shuffle(r, starts)
+		}
 		var idx bytes.Buffer
-		for i := 0; i < sub; i++ {
-			fmt.Fprintf(&idx, "%d %d ", 10+i*per*2, per)
+		for _, st := range starts {
+			fmt.Fprintf(&idx, "%d %d ", st, per)
 		}
 		raw := kit.Deflate(make([]byte, sub*per*4))
 		size := 10 + sub*per*2 + 1
